@@ -39,8 +39,10 @@ import (
 
 func init() { core.Register("C15", core.Scenario{Run: Run, Replay: Replay}) }
 
-// One known-finding class is open for this property: F45 (slow.go, classSlowBody - the write deadline is one
-// absolute instant, a response whose body the origin delivers over more than WriteTimeout is cut off).
+// Two known-finding classes are open for this property: F45 (slow.go, classSlowBody - the write deadline is one
+// absolute instant, a response whose body the origin delivers over more than WriteTimeout is cut off) and F49
+// (bodystall.go, classBodyStall - a stall inside a request body under ReadTimeout is answered 504 and the
+// connection idles on instead of being closed).
 // F8 (the accept loop waited for the PROXY header of every connection), F32 (no deadline for the first
 // tunnel byte after an intercepted CONNECT) and F46 (the request's read deadline stayed armed on tunnels) are
 // repaired in the tree. The inputs that showed them - groups of peers stalled in their PROXY header next to
